@@ -111,7 +111,7 @@ class Counted:
         self.nan_keys: set[bytes] = set()
 
     # ----- rules
-    def _hits(self, rule, x, key) -> bool:
+    def hits(self, rule, x, key) -> bool:
         if rule is None:
             return False
         if rule["kind"] == "kth":
@@ -136,12 +136,12 @@ class Counted:
 
     def func(self, x):
         key, is_complex = self._record("f", x)
-        if not is_complex and self._hits(self.raise_rule, x, key):
+        if not is_complex and self.hits(self.raise_rule, x, key):
             self.state["raised"] += 1
             self.raised_keys.add(key)
             raise ValueError("harness: the function refuses this point")
         value = self.poly.func(x)
-        if not is_complex and self._hits(self.nan_rule, x, key):
+        if not is_complex and self.hits(self.nan_rule, x, key):
             self.state["nan_returned"] += 1
             self.nan_keys.add(key)
             return value * float("nan")
@@ -275,9 +275,13 @@ def bounded_spaces(draw, max_dim: int = 4, min_dim: int = 1, allow_integer: bool
         sizes.append(size)
         left -= size
     names = ["x", "y", "z", "n"][: len(sizes)]
+    kinds = [allow_integer and draw(st.booleans()) for _ in sizes]
+    if allow_integer and not any(kinds):
+        kinds[-1] = True  # asked for integer variables: at least one
+    if not all_integer_ok and all(kinds):
+        kinds[0] = False
     variables = []
-    for name, size in zip(names, sizes):
-        is_int = allow_integer and draw(st.integers(0, 2)) == 0
+    for name, size, is_int in zip(names, sizes, kinds):
         comps = []
         for _ in range(size):
             if is_int:
@@ -289,9 +293,6 @@ def bounded_spaces(draw, max_dim: int = 4, min_dim: int = 1, allow_integer: bool
             comps.append([lb, ub])
         value = [[draw(st.integers(0, 8)), 0] for _ in range(size)]
         variables.append({"name": name, "type": "integer" if is_int else "float", "comps": comps, "value": value})
-    if not all_integer_ok and all(v["type"] == "integer" for v in variables):
-        variables[0]["type"] = "float"
-        variables[0]["comps"] = [[float(lo), float(up)] for lo, up in variables[0]["comps"]]
     return {"vars": variables, "int_norm": False}
 
 
@@ -305,8 +306,8 @@ def _scalarise(fs, constant: bool = False):
     return fs
 
 
-def _rule(draw, n_functions: int, max_k: int):
-    if draw(st.booleans()):
+def _rule(draw, n_functions: int, max_k: int, half_only: bool = False):
+    if not half_only and draw(st.booleans()):
         return {"fn": draw(st.integers(0, n_functions - 1)), "kind": "kth", "k": draw(st.integers(1, max_k))}
     return {"fn": draw(st.integers(0, n_functions - 1)), "kind": "half", "comp": draw(st.integers(0, 3)),
             "level": draw(st.integers(1, 7)), "side": draw(st.sampled_from([-1, 1]))}
@@ -336,12 +337,13 @@ def opt_cases(draw, caps: dict, names: list, second_names: list | None = None):
     diff = "user"
     if not linear and not cap["composite"] and draw(st.integers(0, 5)) == 0:
         diff = draw(st.sampled_from(["finite_differences", "finite_differences", "centered_differences", "complex_step"]))
-    use_int = cap["int"] and not cap["composite"] and diff == "user" and draw(st.integers(0, 2)) == 0
+    use_int = cap["int"] and not cap["composite"] and diff == "user" and draw(st.booleans())
     space = draw(bounded_spaces(max_dim=3 if (cap["global"] or cap["composite"]) else 4, min_dim=MIN_DIMENSION.get(algo, 1),
                                 allow_integer=use_int, all_integer_ok=False))
     n_in = space_dimension(space)
     kinds = ("mdo_linear",) if linear else ("quad", "quad", "affine")
-    obj = _scalarise(draw(function_specs(n_in, "f", kinds=kinds, max_dim=2 if multi else 1)), constant=(stop == "ftol"))
+    constant = stop == "ftol" and draw(st.booleans())  # ftol fires on a constant objective, or on any with a huge ftol_abs
+    obj = _scalarise(draw(function_specs(n_in, "f", kinds=kinds, max_dim=2 if multi else 1)), constant=constant)
     if cap["composite"]:
         obj["grad_1d"] = True  # LagrangeMultipliers (Augmented_Lagrangian_order_1) needs a 1-D objective gradient
     if multi:
@@ -387,7 +389,7 @@ def opt_cases(draw, caps: dict, names: list, second_names: list | None = None):
         "ineq_tolerance": draw(st.sampled_from([1e-4, 1e-2])),
     }
     if stop == "ftol":
-        settings["ftol_abs"] = 1e-3
+        settings["ftol_abs"] = 1e-3 if constant else 1e9
     elif stop == "xtol":
         settings["xtol_abs"] = 1e9
     elif stop == "time":
@@ -477,7 +479,10 @@ def doe_settings(draw, algo: str, cap: dict, space, seed: int):
         return {"n_samples": draw(st.integers(2, 3)) ** d}
     if algo == "OT_SOBOL_INDICES":
         return {"n_samples": (2 * d + 2) * draw(st.integers(1, 2)), "seed": seed}
-    if algo in ("PYDOE_BBDESIGN", "PYDOE_CCDESIGN", "PYDOE_FF2N", "PYDOE_PBDESIGN"):
+    if algo == "PYDOE_CCDESIGN":
+        # the default face 'circumscribed' puts the star points outside the bounds (sample placement is C14's matter)
+        return {"face": draw(st.sampled_from(["faced", "inscribed"])), "center": draw(st.sampled_from([[1, 1], [2, 1], [0, 1]]))}
+    if algo in ("PYDOE_BBDESIGN", "PYDOE_FF2N", "PYDOE_PBDESIGN"):
         return {}
     if cap["has_n_samples"]:
         s["n_samples"] = draw(st.integers(2, N_SAMPLES_ALGOS_MAX.get(algo, 12)))
@@ -497,7 +502,7 @@ def doe_cases(draw, caps: dict, names: list):
     use_int = cap["int"] and draw(st.integers(0, 2)) == 0
     space = draw(bounded_spaces(max_dim=max(max_dim, min_dim), min_dim=min_dim, allow_integer=use_int))
     n_in = space_dimension(space)
-    seed = draw(st.integers(0, 2**16))
+    seed = draw(st.integers(1, 2**16))
     settings = doe_settings(draw, algo, cap, space, seed)
     obj = _scalarise(draw(function_specs(n_in, "f", kinds=("quad", "affine"), max_dim=1)))
     n_cons = draw(st.integers(0, 2))
@@ -507,8 +512,11 @@ def doe_cases(draw, caps: dict, names: list):
         fs = draw(function_specs(n_in, ("g" if ctype == "ineq" else "h") + str(k + 1), kinds=("quad", "affine"), max_dim=2))
         fs["jac"] = "dense"
         cons.append({"type": ctype, "spec": fs})
-    fail = _rule(draw, 1 + n_cons, 6) if draw(st.integers(0, 1)) == 0 else None
-    nan = _rule(draw, 1 + n_cons, 6) if draw(st.integers(0, 3)) == 0 else None
+    # parallel execution: the functions run in forked workers, the harness sees no call record; the rules are then
+    # half-spaces only (decidable from the sample alone)
+    n_processes = 2 if draw(st.integers(0, 5)) == 0 else 1
+    fail = _rule(draw, 1 + n_cons, 6, n_processes > 1) if draw(st.integers(0, 1)) == 0 else None
+    nan = _rule(draw, 1 + n_cons, 6, n_processes > 1) if draw(st.integers(0, 3)) == 0 else None
     problem = {"space": space, "x0": None, "obj": obj, "cons": cons, "maximize": draw(st.integers(0, 5)) == 0, "linear": False,
                "feasible_x0": False, "nan": nan, "fail": fail, "diff": "user"}
     for var in space["vars"]:
@@ -520,8 +528,9 @@ def doe_cases(draw, caps: dict, names: list):
     return {
         "algo": algo, "problem": problem, "settings": settings, "seed": seed,
         "eval_jac": draw(st.integers(0, 3)) == 0,
-        "normalize_design_space": draw(st.integers(0, 2)) == 0,
+        "normalize_design_space": draw(st.integers(0, 7)) == 3,
         "use_database": True,
+        "n_processes": n_processes,
         "second": second,
     }
 
